@@ -24,6 +24,8 @@ type Stream struct {
 	OpProps    func(op M) []string // properties a correspondence difference on this op concerns
 	Reps       int
 	NoModel    func(op M) bool // operations that only the oracle judges
+	Enrich     func(op M) M    // adds what the model needs (derived from the op alone) just before piping
+	NoShrink   bool            // operations are opaque payloads: report them as generated
 }
 
 type Case struct {
@@ -165,7 +167,11 @@ func Run(s *Stream, g *G, tier string, seed int64, modelBin string, corpus []M, 
 		if s.NoModel != nil && s.NoModel(op) {
 			continue
 		}
-		mops = append(mops, op)
+		if s.Enrich != nil {
+			mops = append(mops, s.Enrich(op))
+		} else {
+			mops = append(mops, op)
+		}
 		midx = append(midx, i)
 	}
 	if modelBin != "" && len(mops) > 0 {
@@ -188,7 +194,7 @@ func Run(s *Stream, g *G, tier string, seed int64, modelBin string, corpus []M, 
 			if !Equal(mc, impl[i]) {
 				op := ops[i]
 				// shrink while model and implementation still differ
-				if shrunk[caseClass("correspondence", op)] >= 3 {
+				if s.NoShrink || shrunk[caseClass("correspondence", op)] >= 3 {
 					for _, p := range s.OpProps(op) {
 						rep.Cases = append(rep.Cases, Case{Property: p, Kind: "correspondence", Stream: s.Name, Op: op,
 							Impl: impl[i], Model: mc, Messages: []string{"model and implementation disagree (not minimised)"}})
@@ -242,7 +248,7 @@ func Run(s *Stream, g *G, tier string, seed int64, modelBin string, corpus []M, 
 			}
 			sort.Strings(props)
 			for _, p := range props {
-				if shrunk[caseClass("oracle:"+p, op)] >= 3 {
+				if s.NoShrink || shrunk[caseClass("oracle:"+p, op)] >= 3 {
 					rep.Cases = append(rep.Cases, Case{Property: p, Kind: "oracle", Stream: s.Name, Op: op, Impl: impl[i],
 						Messages: append([]string{"(not minimised)"}, byProp[p]...)})
 					continue
